@@ -233,7 +233,7 @@ func classifyMapRange(c *core.Ctx, info *types.Info, rs *ast.RangeStmt, stack []
 		}
 		if eff := effectOf(c, f); eff != "" {
 			if sensitive == "" {
-				sensitive = "calls " + f.Name() + ", which " + eff + ", once per element in map order"
+				sensitive = "calls " + core.N(f) + ", which " + eff + ", once per element in map order"
 			}
 		}
 		return true
@@ -248,7 +248,7 @@ func classifyMapRange(c *core.Ctx, info *types.Info, rs *ast.RangeStmt, stack []
 	// collected slices must be totally sorted before any other use
 	for _, o := range collected {
 		if ok, why := sortedAfter(info, rs, stack, o); !ok {
-			return "sensitive", "appends to " + o.Name() + " in map order and " + why
+			return "sensitive", "appends to " + core.N(o) + " in map order and " + why
 		}
 	}
 	if errorChoice != "" {
@@ -317,11 +317,11 @@ func sortedAfter(info *types.Info, rs *ast.RangeStmt, stack []ast.Node, o types.
 				return core.ObjOf(info, e) == o
 			}
 			switch {
-			case f.Pkg() != nil && f.Pkg().Path() == "sort" && (f.Name() == "Strings" || f.Name() == "Sort" || f.Name() == "Stable" || f.Name() == "Ints"):
+			case f.Pkg() != nil && f.Pkg().Path() == "sort" && (core.N(f) == "Strings" || core.N(f) == "Sort" || core.N(f) == "Stable" || core.N(f) == "Ints"):
 				if len(call.Args) > 0 && argIs(call.Args[0]) {
 					sorted = true
 				}
-			case f.Name() == "suggestionList" && f.Pkg() != nil && f.Pkg().Path() == core.ModPath:
+			case core.N(f) == "suggestionList" && f.Pkg() != nil && f.Pkg().Path() == core.ModPath:
 				if len(call.Args) == 2 && argIs(call.Args[1]) {
 					sorted = true
 				}
@@ -375,7 +375,7 @@ func effectOf(c *core.Ctx, f *types.Func) string {
 		for _, gg := range core.WithAnon(g) {
 			for _, w := range core.WritesIn(gg) {
 				if !w.Fresh && (w.Kind == "field" || w.Kind == "global" || w.Kind == "list") {
-					if w.Field != nil && (strings.EqualFold(w.Field.Name(), "errors") || strings.EqualFold(w.Field.Name(), "Errors")) {
+					if w.Field != nil && (strings.EqualFold(core.N(w.Field), "errors") || strings.EqualFold(core.N(w.Field), "Errors")) {
 						res = "records errors (" + w.Target() + ")"
 						return
 					}
@@ -473,7 +473,7 @@ func c12Sort(c *core.Ctx, r *core.Reporter) {
 				return true
 			})
 			if f := core.CalleeObj(p.TypesInfo, call); mentions && f != nil && through == "" {
-				through = f.Pkg().Name() + "." + f.Name()
+				through = f.Pkg().Name() + "." + core.N(f)
 				tpos = be.Pos()
 			}
 		}
@@ -492,9 +492,9 @@ func c12Sort(c *core.Ctx, r *core.Reporter) {
 			if !ok {
 				return true
 			}
-			if f := core.CalleeObj(pp.TypesInfo, call); f != nil && f.Pkg() != nil && f.Pkg().Path() == "sort" && (f.Name() == "Slice" || f.Name() == "SliceStable") {
+			if f := core.CalleeObj(pp.TypesInfo, call); f != nil && f.Pkg() != nil && f.Pkg().Path() == "sort" && (core.N(f) == "Slice" || core.N(f) == "SliceStable") {
 				n++
-				r.Exists(fmt.Sprintf("%s/sort.%s#%d", core.DeclName(fd), f.Name(), n), call.Pos(), "sort.Slice call inventoried")
+				r.Exists(fmt.Sprintf("%s/sort.%s#%d", core.DeclName(fd), core.N(f), n), call.Pos(), "sort.Slice call inventoried")
 			}
 			return true
 		})
@@ -513,9 +513,9 @@ func c12Ambient(c *core.Ctx, r *core.Reporter) {
 				continue
 			}
 			pth := cal.Pkg.Pkg.Path()
-			if (pth == "time" && (cal.Name() == "Now" || cal.Name() == "Since")) || pth == "math/rand" || pth == "math/rand/v2" || pth == "crypto/rand" ||
-				(pth == "os" && (cal.Name() == "Getenv" || cal.Name() == "LookupEnv" || cal.Name() == "Hostname" || cal.Name() == "Getpid")) {
-				bad = fnKey(fn) + " calls " + pth + "." + cal.Name()
+			if (pth == "time" && (core.N(cal) == "Now" || core.N(cal) == "Since")) || pth == "math/rand" || pth == "math/rand/v2" || pth == "crypto/rand" ||
+				(pth == "os" && (core.N(cal) == "Getenv" || core.N(cal) == "LookupEnv" || core.N(cal) == "Hostname" || core.N(cal) == "Getpid")) {
+				bad = fnKey(fn) + " calls " + pth + "." + core.N(cal)
 				pos = ci.Pos()
 			}
 		}
